@@ -663,9 +663,19 @@ func msgClass(s string) string {
 // first differing "key=value" line of a generated text echo, the field of a
 // JSON object, or a description of the byte difference.
 func bodyDiff(a, b []byte) string {
+	if len(a) == 0 {
+		return "in-process empty, child not"
+	}
+	if len(b) == 0 {
+		return "child empty, in-process not"
+	}
 	if ma, ok := errMsg(a); ok {
 		if mb, ok := errMsg(b); ok {
 			if ma != mb {
+				if strings.HasSuffix(ma, mb) {
+					// e.g. the localized "Error: " / "Service aborted" wrapper
+					return fmt.Sprintf("error-msg: the child message %q lacks the prefix of the in-process message", msgClass(mb))
+				}
 				return fmt.Sprintf("error-msg in=%q child=%q", msgClass(ma), msgClass(mb))
 			}
 			// same message: compare the layout
@@ -699,7 +709,7 @@ func bodyDiff(a, b []byte) string {
 			y, _ := json.Marshal(jb[k])
 			if !bytes.Equal(x, y) {
 				if k == "echo" {
-					return "json " + lineDiff([]byte(fmt.Sprint(ja[k])), []byte(fmt.Sprint(jb[k])))
+					return lineDiff([]byte(fmt.Sprint(ja[k])), []byte(fmt.Sprint(jb[k])))
 				}
 				return "json field " + k
 			}
@@ -778,21 +788,26 @@ func compare(a, b answer, bodyNote string) []diff {
 		return []diff{{sig: "no response from child mode", obs: b.Err, exp: fmt.Sprintf("status %d", a.Status)}}
 	}
 	ab, bb := maskBody(a.Body), maskBody(b.Body)
+	ma, aErr := errMsg(a.Body)
+	_, bErr := errMsg(b.Body)
+	aErr = aErr && a.Status >= 400
+	bErr = bErr && b.Status >= 400
 	if a.Status != b.Status {
 		// everything else about the two answers follows from whatever made the
 		// statuses differ: report this alone
-		if m, ok := errMsg(a.Body); ok && a.Status == 500 && m == "internal server error" {
-			return []diff{{sig: panicSig,
-				obs: fmt.Sprintf("child status %d body %s", b.Status, clip(string(bb), 400)), exp: fmt.Sprintf("in-process status %d body %s", a.Status, clip(string(ab), 400))}}
-		}
 		extra := ""
 		if m, ok := errMsg(b.Body); ok {
 			extra = " child-msg=" + msgClass(m)
-		} else if m, ok := errMsg(a.Body); ok {
-			extra = " in-process-msg=" + msgClass(m)
+		} else if aErr {
+			extra = " in-process-msg=" + msgClass(ma)
 		}
-		return []diff{{sig: fmt.Sprintf("status in=%d child=%d%s", a.Status, b.Status, extra),
+		sig := fmt.Sprintf("status in=%d child=%d%s", a.Status, b.Status, extra)
+		return []diff{{sig: sig,
 			obs: fmt.Sprintf("child status %d body %s", b.Status, clip(string(bb), 400)), exp: fmt.Sprintf("in-process status %d body %s", a.Status, clip(string(ab), 400))}}
+	}
+	if aErr && a.Status == 500 && !bErr {
+		return []diff{{sig: "service fails at run time after writing its answer: in-process sends ego's error document, child mode the service's partial answer with status 500",
+			obs: fmt.Sprintf("child: Content-Type %q body %s", b.Header["Content-Type"], clip(string(bb), 400)), exp: fmt.Sprintf("in-process: Content-Type %q body %s", a.Header["Content-Type"], clip(string(ab), 400))}}
 	}
 	names := map[string]bool{}
 	for k := range a.Header {
@@ -820,7 +835,9 @@ func compare(a, b answer, bodyNote string) []diff {
 		}
 		var sig string
 		switch {
-		case k == "Content-Type" && len(vb) >= 2 && vb[len(vb)-1] == defs.ErrorMediaType && len(va) <= 1:
+		case len(va) >= 2 && len(vb) == 1 && strings.TrimSpace(vb[0]) == strings.TrimSpace(strings.Join(va, ", ")):
+			sig = "response header with several values is one comma-joined value in child mode"
+		case k == "Content-Type" && len(vb) >= 2 && vb[len(vb)-1] == defs.ErrorMediaType:
 			sig = "child mode error answer carries several Content-Type lines (the service's or application/json, then the error type)"
 		case k == "Content-Type" && len(vb) >= 2:
 			sig = "child mode sends Content-Type " + fmt.Sprint(len(vb)) + " times: " + strings.Join(vb, "+") + " in=" + ctNorm(va)
@@ -828,8 +845,10 @@ func compare(a, b answer, bodyNote string) []diff {
 			sig = "Content-Type application/json of the in-process answer is not set in child mode"
 		case k == "Content-Type":
 			sig = "header Content-Type in=" + ctNorm(va) + " child=" + ctNorm(vb)
-		case len(va) >= 2 && len(vb) == 1 && vb[0] == strings.Join(va, ", "):
-			sig = "response header with several values is one comma-joined value in child mode"
+		case k == "Www-Authenticate":
+			sig = "header Www-Authenticate of a 401 answer differs (child mode sets its own challenge)"
+		case aErr && bErr && len(va) == 0:
+			sig = "error answer: headers the service had set before it failed are sent only in child mode"
 		default:
 			name := k
 			if strings.HasPrefix(k, "X-C41-") {
@@ -871,7 +890,6 @@ func clip(s string, n int) string {
 	return s
 }
 
-
 // bodyNote classifies the request body for signatures about its echo.
 func bodyNote(b []byte) string {
 	switch {
@@ -907,7 +925,25 @@ func (e *env) panicSite(c Case) string {
 	if r.Panic == nil {
 		return "unknown"
 	}
-	return srvfix.PanicSite(r.Stack)
+	// the frames below the LAST "panic(" line: the router's reporter
+	// re-panics when recovery is off, the original panic is further down
+	lines := strings.Split(r.Stack, "\n")
+	last := -1
+	for i, l := range lines {
+		if strings.HasPrefix(l, "panic(") {
+			last = i
+		}
+	}
+	for i := last + 1; last >= 0 && i < len(lines); i++ {
+		l := lines[i]
+		if strings.HasPrefix(l, "github.com/tucats/ego/") && !strings.Contains(l, "/verif/") {
+			if j := strings.LastIndex(l, "("); j > 0 {
+				l = l[:j]
+			}
+			return strings.TrimPrefix(l, "github.com/tucats/ego/")
+		}
+	}
+	return "unknown"
 }
 
 // ---------------------------------------------------------------- known findings (to look behind them)
@@ -967,27 +1003,35 @@ func multi(kvs []KV, fold bool) bool {
 }
 
 func oracle(c Case) vkit.Outcome {
-	var out vkit.Outcome
+	out, _ := evaluate(c, "")
+	return out
+}
+
+// evaluate runs a case and returns the outcome and every difference found.
+// When several differences exist, the one reported is the first whose
+// signature contains want (if want is set), else the first that is not a
+// recorded finding, else the first.
+func evaluate(c Case, want string) (out vkit.Outcome, all []diff) {
 	e, err := getEnv()
 	if err != nil {
 		out.Skip = "fixture: " + err.Error()
-		return out
+		return out, all
 	}
 	svcKind := "gen"
 	if c.Svc.Lib != "" {
 		if _, ok := libServices[c.Svc.Lib]; !ok {
 			out.Skip = "unknown library service"
-			return out
+			return out, all
 		}
 		svcKind = "lib:" + c.Svc.Lib
 	} else {
 		if c.Svc.Vars < 0 || c.Svc.Vars > len(varNames) {
 			out.Skip = "malformed service"
-			return out
+			return out, all
 		}
 		if err := e.install(c.Svc); err != nil {
 			out.Skip = "install: " + err.Error()
-			return out
+			return out, all
 		}
 	}
 	raw := e.wire(c)
@@ -1000,7 +1044,7 @@ func oracle(c Case) vkit.Outcome {
 	if a.Err != "" {
 		out.Inconclusive = "in-process request got no response"
 		out.Labels = append(out.Labels, "inproc-no-response "+clip(a.Err, 40))
-		return out
+		return out, all
 	}
 	out.Labels = append(out.Labels, fmt.Sprintf("svc=%s", svcKind), fmt.Sprintf("inproc-status=%d reached=%v", a.Status, a.Reach))
 	if !a.Reach {
@@ -1008,7 +1052,7 @@ func oracle(c Case) vkit.Outcome {
 		// unknown path): the service did not run, there is nothing to compare
 		out.Labels = append(out.Labels, "router-answered")
 		out.Key = "router:" + string(raw)
-		return out
+		return out, all
 	}
 	fa := run("file")
 	pa := run("pipe")
@@ -1036,9 +1080,8 @@ func oracle(c Case) vkit.Outcome {
 	if ds := compare(a, b, note); len(ds) > 0 {
 		// the service is not a function of the request in-process: no verdict
 		out.Skip = "in-process answers differ: " + ds[0].sig
-		return out
+		return out, all
 	}
-	var all []diff
 	df, dp := compare(a, fa, note), compare(a, pa, note)
 	inP := map[string]bool{}
 	for _, d := range dp {
@@ -1062,11 +1105,16 @@ func oracle(c Case) vkit.Outcome {
 	}
 	if len(all) == 0 {
 		out.Labels = append(out.Labels, "agree")
-		return out
+		return out, all
 	}
-	for i := range all {
-		if strings.HasPrefix(all[i].sig, panicSig) {
-			all[i].sig += " at " + e.panicSite(c)
+	if _, isErr := errMsg(a.Body); isErr && a.Status == 500 {
+		// The in-process answer may be the router's recovery from a handler
+		// panic (its message is localized, so the text does not tell). If the
+		// request panics with recovery off, that panic is the one root cause of
+		// every difference of this case.
+		if site := e.panicSite(c); site != "unknown" {
+			all = []diff{{sig: panicSig + " at " + site,
+				obs: fmt.Sprintf("child answers: file %d, pipe %d", fa.Status, pa.Status), exp: fmt.Sprintf("in-process status %d body %s", a.Status, clip(string(maskBody(a.Body)), 300))}}
 		}
 	}
 	out.Labels = append(out.Labels, "differ")
@@ -1078,6 +1126,14 @@ func oracle(c Case) vkit.Outcome {
 			break
 		}
 	}
+	if want != "" {
+		for _, d := range all {
+			if strings.Contains(d.sig, want) {
+				pick = d
+				break
+			}
+		}
+	}
 	var sigs []string
 	for _, d := range all {
 		sigs = append(sigs, d.sig)
@@ -1085,7 +1141,7 @@ func oracle(c Case) vkit.Outcome {
 	out.Fail = &vkit.Failure{Sig: pick.sig,
 		Observed: fmt.Sprintf("%s %s: %s (all differences: %s)", c.Req.Method, target(c), pick.obs, strings.Join(sigs, " | ")),
 		Expected: pick.exp}
-	return out
+	return out, all
 }
 
 // ---------------------------------------------------------------- generator
@@ -1120,9 +1176,9 @@ func genBody(t *rapid.T) ([]byte, bool) {
 	case 2:
 		return nil, true // Content-Length: 0
 	case 3, 4:
-		return []byte(rapid.SampledFrom([]string{"hello", `{"a":1,"b":[true,null,"x"]}`, "line1\nline2\r\n", "ünïcödé ☃", "a=1&b=2", " ", "\"quoted\" \\ back"}).Draw(t, "textbody")), true
+		return []byte(rapid.SampledFrom([]string{"Hello", `{"A":1,"b":[true,null,"X"]}`, "Line1\nline2\r\n", "ÜnïcÖdé ☃", "A=1&b=2", " ", "\"Quoted\" \\ Back", "MiXeD cAsE"}).Draw(t, "textbody")), true
 	case 5:
-		return []byte(rapid.SampledFrom([]string{"\xff\xfe\xfd", "ok\x00nul", "\x80", "\xc3\x28", "caf\xe9", "\x1b[0m\x07", "\xed\xa0\x80"}).Draw(t, "binbody")), true
+		return []byte(rapid.SampledFrom([]string{"\xff\xfe\xfd", "OK\x00nul", "\x80", "\xc3\x28", "Caf\xe9", "\x1b[0m\x07", "\xed\xa0\x80"}).Draw(t, "binbody")), true
 	case 6:
 		n := rapid.IntRange(1, 48).Draw(t, "rawlen")
 		b := make([]byte, n)
@@ -1132,7 +1188,7 @@ func genBody(t *rapid.T) ([]byte, bool) {
 		return b, true
 	case 7:
 		n := rapid.SampledFrom([]int{4096, 65536, 70001, 300000}).Draw(t, "largelen")
-		unit := rapid.SampledFrom([]string{"0123456789abcdef", "é☃x", "\x00\xffAB"}).Draw(t, "largeunit")
+		unit := rapid.SampledFrom([]string{"0123456789ABCDEF", "é☃X", "\x00\xffAb"}).Draw(t, "largeunit")
 		return []byte(strings.Repeat(unit, n/len(unit)+1))[:n], true
 	default:
 		return []byte(rapid.StringN(0, 40, 80).Draw(t, "anybody")), true
@@ -1308,7 +1364,7 @@ func fixed() []Case {
 			c.Req.Vars = append(c.Req.Vars, KV{V: ls.vars[i][0]})
 		}
 		if ls.method != "GET" {
-			c.Req.Body, c.Req.HasBody = []byte(`{"k":"v"}`), true
+			c.Req.Body, c.Req.HasBody = []byte(`{"K":"v"}`), true
 		}
 		if n == "protected" || n == "debug" {
 			c.Req.Auth = "user-token"
@@ -1319,10 +1375,10 @@ func fixed() []Case {
 	}
 	all := Svc{Vars: 2, Params: []Param{{"list", "list"}, {"q", "string"}}, Echo: echoItems, Out: "text"}
 	cs = append(cs, Case{Svc: all, Req: Req{Method: "POST", Vars: []KV{{V: "x"}, {V: "a b"}}, Query: []KV{{K: "list", V: "1"}, {K: "list", V: "2"}, {K: "q", V: ""}},
-		Headers: []KV{{K: "Accept", V: "text/plain"}, {K: "Via", V: "1.1 a"}, {K: "via", V: "1.1 b"}}, Body: []byte("hello"), HasBody: true, Auth: "user-token"}})
+		Headers: []KV{{K: "Accept", V: "text/plain"}, {K: "Via", V: "1.1 a"}, {K: "via", V: "1.1 b"}}, Body: []byte("Hello, World"), HasBody: true, Auth: "user-token"}})
 	cs = append(cs, Case{Svc: Svc{Echo: []string{"method"}, Out: "text", HOps: []HOp{{Op: "add", Name: "X-C41-Two", Value: "a"}, {Op: "add", Name: "X-C41-Two", Value: "b"}}},
 		Req: Req{Method: "GET", Headers: []KV{{K: "Accept", V: "text/plain"}}}})
-	cs = append(cs, Case{Svc: Svc{Echo: []string{"bodysum"}, Out: "raw"}, Req: Req{Method: "PUT", Headers: []KV{{K: "Accept", V: "*/*"}}, Body: []byte("\xff\x00\x80binary"), HasBody: true}})
+	cs = append(cs, Case{Svc: Svc{Echo: []string{"bodysum"}, Out: "raw"}, Req: Req{Method: "PUT", Headers: []KV{{K: "Accept", V: "*/*"}}, Body: []byte("\xff\x00\x80Binary"), HasBody: true}})
 	cs = append(cs, Case{Svc: Svc{Echo: []string{"method"}, Out: "none", Status: 404}, Req: Req{Method: "GET", Headers: acc}})
 	cs = append(cs, Case{Svc: Svc{Echo: []string{"user"}, Out: "json", Auth: "admin", Status: 201}, Req: Req{Method: "GET", Headers: acc, Auth: "admin-basic"}})
 	return cs
